@@ -84,16 +84,16 @@ Definition uncovered_rule_a64 : arule := ANoOpIfFirstFrameOtherwiseFp.
 
 Definition generic_a64 (rw : row) (first : bool) (rg : aregs) (m : mem) : cb_result arule aregs :=
   match eval_cfa_rule (a64_getreg rg) (r_cfa rw) with
-  | None => CbErr rg
+  | None => CbErrV rg
   | Some cfa =>
     let l := lr rg in let f := afp rg in let s := asp rg in
     if negb first then
-      if cfa <=? s then CbErr rg                              (* StackPointerMovedBackwards *)
+      if cfa <=? s then CbErrV rg                              (* StackPointerMovedBackwards *)
       else match eval_register_rule (a64_getreg rg) (r_fp rw) cfa f m with
-           | None => CbErr rg
+           | None => CbErrV rg
            | Some nf =>
              match eval_register_rule (a64_getreg rg) (r_ra rw) cfa l m with
-             | None => CbErr rg
+             | None => CbErrV rg
              | Some nl =>
                let rg' := set_lr (set_asp (set_afp rg nf) cfa) nl in
                CbUncacheable (lr rg') rg'                      (* regs.lr(): fix for S2 *)
